@@ -2435,6 +2435,8 @@ func TestVerif_C05(t *testing.T) {
 		finishHistory(ci, "random")
 		res.bump("history:random")
 	}
+	// single use over interleavings: right value || wrong value under every schedule (c05conc.go)
+	c05Concurrent(t, w, configs)
 	for _, p := range env.panics {
 		res.bump("handler-panic")
 		res.Extra["panic"] = p
